@@ -101,34 +101,132 @@ theorem sum_contrib_pos {ι : Type} (l : List ι) (f : ι → Act) :
 def specObs (members : List Nat) (script : Nat → Nat → Arm × Act) (i k : Nat) : Obs :=
   expectedObs (members.any fun j => fails (script j k).2) (script i k).2
 
-/-- the hypothesis on the last section: a rank that re-arms by `reactivate()` must run another section -/
-def LastOk (members : List Nat) (script : Nat → Nat → Arm × Act) (st : Nat → Option Guard) : Nat → Prop
-  | 0 => ∀ i ∈ members, notArmed (st i)
-  | n + 1 => ∀ i ∈ members, (script i n).2 ≠ .react
+/-! ### the end of a case: ranks that still hold an armed guard (last call was a successful `reactivate()`) -/
 
-/-- sequences of sections, by induction on the number of sections -/
-theorem joint_scripts (members : List Nat) :
+def isArmed : Option Guard → Bool
+  | some g => g.active
+  | none => false
+
+theorem notArmed_iff (st : Option Guard) : notArmed st ↔ isArmed st = false := by
+  rcases st with _ | ⟨⟨a⟩⟩ <;> simp [notArmed, isArmed]
+
+/-- the guard object of an armed rank is deleted at the end of the case: its destructor issues `sum(1)` and, because
+it clears `active_` first, does not throw -/
+theorem scriptProg_nil_armed (st : Option Guard) (h : isArmed st = true) (acc : List Obs) :
+    scriptProg st [] acc = .sum 1 (fun _ => .ret acc.reverse) := by
+  rcases st with _ | ⟨⟨a⟩⟩
+  · simp [isArmed] at h
+  · simp [isArmed] at h
+    subst h
+    simp [scriptProg, endProg, destroy, finalize, Prog.bind]
+
+theorem allRet_none_of_mem {α : Type} (ps : List (Prog α)) (c : Nat) (k : Nat → Prog α)
+    (h : Prog.sum c k ∈ ps) : allRet ps = none := by
+  induction ps with
+  | nil => simp at h
+  | cons p ps ih =>
+    cases p with
+    | sum c' k' => simp [allRet]
+    | ret a =>
+      have : Prog.sum c k ∈ ps := by simpa using h
+      simp [allRet, ih this]
+
+theorem allSum_none_of_mem {α : Type} (ps : List (Prog α)) (a : α) (h : Prog.ret a ∈ ps) : allSum ps = none := by
+  induction ps with
+  | nil => simp at h
+  | cons p ps ih =>
+    cases p with
+    | ret a' => simp [allSum]
+    | sum c k =>
+      have : Prog.ret a ∈ ps := by simpa using h
+      simp [allSum, ih this]
+
+/-- a rank waits in a collective that a rank which has already returned never enters -/
+theorem runJoint_mixed_deadlock {α : Type} (fuel : Nat) (ps : List (Prog α)) (c : Nat) (k : Nat → Prog α) (a : α)
+    (hs : Prog.sum c k ∈ ps) (hr : Prog.ret a ∈ ps) : runJoint (fuel + 1) ps = .deadlock := by
+  simp [runJoint, allRet_none_of_mem ps c k hs, allSum_none_of_mem ps a hr]
+
+/-- outcome of the end of a case, given the guard objects the ranks hold after the last section -/
+def endOutcome (members : List Nat) (st : Nat → Option Guard) (rows : Nat → List Obs) : Outcome (List Obs) :=
+  if (members.all fun i => !isArmed (st i)) || (members.all fun i => isArmed (st i)) then .done (members.map rows)
+  else .deadlock
+
+theorem endOutcome_congr (members : List Nat) (st : Nat → Option Guard) (r1 r2 : Nat → List Obs)
+    (h : ∀ i ∈ members, r1 i = r2 i) : endOutcome members st r1 = endOutcome members st r2 := by
+  unfold endOutcome
+  rw [List.map_congr_left h]
+
+theorem runJoint_end (members : List Nat) (fuel : Nat) (st : Nat → Option Guard) (acc : Nat → List Obs)
+    (hf : 2 ≤ fuel) :
+    runJoint fuel (members.map fun i => scriptProg (st i) [] (acc i)) =
+      endOutcome members st (fun i => (acc i).reverse) := by
+  obtain ⟨f, rfl⟩ : ∃ f, fuel = f + 2 := ⟨fuel - 2, by omega⟩
+  unfold endOutcome
+  by_cases hU : (members.all fun i => !isArmed (st i)) = true
+  · -- nobody armed: every rank returns
+    have : (members.map fun i => scriptProg (st i) [] (acc i)) = members.map fun i => Prog.ret ((acc i).reverse) := by
+      apply List.map_congr_left
+      intro i hi
+      have := List.all_eq_true.mp hU i hi
+      exact scriptProg_nil (st i) ((notArmed_iff _).mpr (by simpa using this)) (acc i)
+    rw [this, runJoint_ret]
+    simp [hU]
+  · by_cases hA : (members.all fun i => isArmed (st i)) = true
+    · -- everybody armed: one more matched collective (the destructors), then every rank returns
+      have hne : members ≠ [] := by
+        intro h; subst h; simp at hU
+      have : (members.map fun i => scriptProg (st i) [] (acc i)) =
+          members.map fun i => Prog.sum 1 (fun _ => Prog.ret ((acc i).reverse)) := by
+        apply List.map_congr_left
+        intro i hi
+        exact scriptProg_nil_armed (st i) (List.all_eq_true.mp hA i hi) (acc i)
+      rw [this, runJoint_sum_step (f + 1) members hne (fun _ => 1) (fun i _ => Prog.ret ((acc i).reverse)),
+        runJoint_ret]
+      simp [hA]
+    · -- mixed: deadlock
+      have hU' : ∃ i ∈ members, isArmed (st i) = true := by
+        simpa using hU
+      have hA' : ∃ j ∈ members, isArmed (st j) = false := by
+        simpa using hA
+      obtain ⟨i, hi, hia⟩ := hU'
+      obtain ⟨j, hj, hja⟩ := hA'
+      have hs : Prog.sum 1 (fun _ => Prog.ret ((acc i).reverse)) ∈
+          members.map fun i => scriptProg (st i) [] (acc i) :=
+        List.mem_map.mpr ⟨i, hi, scriptProg_nil_armed (st i) hia (acc i)⟩
+      have hr : Prog.ret ((acc j).reverse) ∈ members.map fun i => scriptProg (st i) [] (acc i) :=
+        List.mem_map.mpr ⟨j, hj, scriptProg_nil (st j) ((notArmed_iff _).mpr hja) (acc j)⟩
+      rw [runJoint_mixed_deadlock (f + 1) _ _ _ _ hs hr]
+      simp [hU, hA]
+
+/-- global sum of the collective of section `k` -/
+def sectionTotal (members : List Nat) (script : Nat → Nat → Arm × Act) (k : Nat) : Nat :=
+  (members.map fun i => contribOf (script i k).2).sum
+
+/-- the guard objects after `n` sections -/
+def finalSt (members : List Nat) : Nat → (Nat → Nat → Arm × Act) → (Nat → Option Guard) → Nat → Option Guard
+  | 0, _, st => st
+  | n + 1, script, _ =>
+    finalSt members n (fun i k => script i (k + 1))
+      (fun i => stateAfter (script i 0).2 (sectionTotal members script 0))
+
+/-- sequences of sections with an arbitrary end, by induction on the number of sections -/
+theorem joint_scripts_end (members : List Nat) :
     ∀ (n fuel : Nat) (script : Nat → Nat → Arm × Act) (st : Nat → Option Guard) (acc : Nat → List Obs),
-      n < fuel → LastOk members script st n →
+      n + 1 < fuel →
       runJoint fuel (members.map fun i => scriptProg (st i) ((List.range n).map (script i)) (acc i)) =
-        .done (members.map fun i => (acc i).reverse ++ (List.range n).map (specObs members script i)) := by
+        endOutcome members (finalSt members n script st)
+          (fun i => (acc i).reverse ++ (List.range n).map (specObs members script i)) := by
   intro n
   induction n with
   | zero =>
-    intro fuel script st acc hf hl
-    obtain ⟨f, rfl⟩ : ∃ f, fuel = f + 1 := ⟨fuel - 1, by omega⟩
-    have : (members.map fun i => scriptProg (st i) ((List.range 0).map (script i)) (acc i)) =
-        members.map fun i => Prog.ret ((acc i).reverse) := by
-      apply List.map_congr_left
-      intro i hi
-      simp [scriptProg_nil (st i) (hl i hi)]
-    rw [this, runJoint_ret]
-    simp
+    intro fuel script st acc hf
+    have := runJoint_end members fuel st acc (by omega)
+    simpa [finalSt] using this
   | succ n ih =>
-    intro fuel script st acc hf hl
+    intro fuel script st acc hf
     obtain ⟨f, rfl⟩ : ∃ f, fuel = f + 1 := ⟨fuel - 1, by omega⟩
     by_cases hm : members = []
-    · subst hm; simp [runJoint, allRet]
+    · subst hm; simp [runJoint, allRet, endOutcome]
     · have hprog : (members.map fun i => scriptProg (st i) ((List.range (n + 1)).map (script i)) (acc i)) =
           members.map fun i => Prog.sum (contribOf (script i 0).2) (fun total =>
             scriptProg (stateAfter (script i 0).2 total) ((List.range n).map (fun k => script i (k + 1)))
@@ -138,23 +236,79 @@ theorem joint_scripts (members : List Nat) :
         rw [List.range_succ_eq_map]
         simp [scriptProg_cons, List.map_map, Function.comp_def]
       rw [hprog, runJoint_sum_step f members hm]
-      have hl' : LastOk members (fun i k => script i (k + 1))
-          (fun i => stateAfter (script i 0).2 ((members.map fun i => contribOf (script i 0).2).sum)) n := by
-        cases n with
-        | zero =>
-          intro i hi
-          exact stateAfter_notArmed _ _ (hl i hi)
-        | succ n' =>
-          intro i hi
-          exact hl i hi
-      rw [ih f (fun i k => script i (k + 1)) _ _ (by omega) hl']
-      congr 1
-      apply List.map_congr_left
+      rw [ih f (fun i k => script i (k + 1)) _ _ (by omega)]
+      simp only [finalSt, sectionTotal]
+      apply endOutcome_congr
       intro i _
       rw [List.range_succ_eq_map]
       have hs := sum_contrib_pos members (fun j => (script j 0).2)
       simp only [gt_iff_lt] at hs
       simp [specObs, hs, List.map_map, Function.comp_def]
+
+theorem isArmed_finalSt (members : List Nat) (i : Nat) :
+    ∀ (n : Nat) (script : Nat → Nat → Arm × Act) (st : Nat → Option Guard),
+      isArmed (finalSt members (n + 1) script st i) = endsArmed members script (n + 1) i := by
+  intro n
+  induction n with
+  | zero =>
+    intro script st
+    have hs := sum_contrib_pos members (fun j => (script j 0).2)
+    simp only [gt_iff_lt] at hs
+    simp only [finalSt, endsArmed, sectionTotal]
+    rw [← hs]
+    generalize (members.map fun j => contribOf (script j 0).2).sum = t
+    cases h : (script i 0).2 <;> by_cases ht : 0 < t <;> simp [stateAfter, isArmed, ht]
+  | succ n ih =>
+    intro script st
+    have e : finalSt members (n + 1 + 1) script st =
+        finalSt members (n + 1) (fun i k => script i (k + 1))
+          (fun i => stateAfter (script i 0).2 (sectionTotal members script 0)) := rfl
+    rw [e, ih]
+    simp [endsArmed]
+
+theorem isArmed_final (members : List Nat) (script : Nat → Nat → Arm × Act) (n i : Nat) :
+    isArmed (finalSt members n script (fun _ => none) i) = endsArmed members script n i := by
+  cases n with
+  | zero => rfl
+  | succ n => exact isArmed_finalSt members i n script _
+
+/-- the sections of the ranks of a communicator match at the end of the case: either no member or every member still
+holds an armed guard (i.e. ended with a successful `reactivate()` checkpoint and therefore owes one more section) -/
+def EndsMatched (members : List Nat) (script : Nat → Nat → Arm × Act) (n : Nat) : Prop :=
+  (∀ i ∈ members, endsArmed members script n i = false) ∨ (∀ i ∈ members, endsArmed members script n i = true)
+
+theorem endsMatchedB_iff (members : List Nat) (script : Nat → Nat → Arm × Act) (n : Nat) :
+    endsMatchedB members script n = true ↔ EndsMatched members script n := by
+  unfold endsMatchedB EndsMatched
+  simp [List.all_eq_true]
+
+theorem endOutcome_matched (members : List Nat) (script : Nat → Nat → Arm × Act) (n : Nat)
+    (h : EndsMatched members script n) (rows : Nat → List Obs) :
+    endOutcome members (finalSt members n script (fun _ => none)) rows = .done (members.map rows) := by
+  unfold endOutcome
+  simp only [isArmed_final]
+  rcases h with h | h
+  · have : (members.all fun i => !endsArmed members script n i) = true :=
+      List.all_eq_true.mpr fun i hi => by simp [h i hi]
+    simp [this]
+  · have : (members.all fun i => endsArmed members script n i) = true :=
+      List.all_eq_true.mpr fun i hi => h i hi
+    simp [this]
+
+theorem endOutcome_unmatched (members : List Nat) (script : Nat → Nat → Arm × Act) (n : Nat)
+    (h : ¬ EndsMatched members script n) (rows : Nat → List Obs) :
+    endOutcome members (finalSt members n script (fun _ => none)) rows = .deadlock := by
+  unfold endOutcome
+  simp only [isArmed_final]
+  have h1 : (members.all fun i => !endsArmed members script n i) = false := by
+    apply Bool.eq_false_iff.mpr
+    intro hc
+    exact h (Or.inl fun i hi => by simpa using List.all_eq_true.mp hc i hi)
+  have h2 : (members.all fun i => endsArmed members script n i) = false := by
+    apply Bool.eq_false_iff.mpr
+    intro hc
+    exact h (Or.inr fun i hi => List.all_eq_true.mp hc i hi)
+  simp [h1, h2]
 
 /-! ### programs of the shape `OneSum` never deadlock -/
 
